@@ -5,14 +5,10 @@ and the shape is `inferDoc` of the derived document".
 import ShapeVerif.Lemmas.ParseSound
 import ShapeVerif.Lemmas.LexInv
 import ShapeVerif.Props.C04
+import ShapeVerif.Ref.JsonText
 namespace ShapeVerif
 open Shape
 
-/-- the member name a `String` token carries: the text between its quotes, unescaped -/
-def keyOf (src : List Char) (t : Token) : String :=
-  match sliceBytes src t.start t.stop with
-  | some txt => memberName txt
-  | none => ""
 
 theorem keyOk_tokenize (src : List Char) : KeyOk src (keyOf src) (tokenize src).tokens := by
   intro t ht hk
